@@ -2,7 +2,8 @@
 with MetaEClass / @EMetaclass, the way pyecoregen writes them (C13).
 
 extras (all optional): mm.dflt {fid: python literal}, mm.explicit {fid: key}  (feature bound to `key` but named by
-name=...), mm.methods {cid: [(name, kind, [args], ndefaults)]}, mm.consts {cid: [key]}
+name=...), mm.methods {cid: [(name, kind, [args], ndefaults)]}, mm.consts {cid: [key]}, mm.mixins {cid: 'before' | 'after' | 'between'}
+(a plain Python class among the bases of a class that has supertypes)
 """
 import sys
 import types
@@ -34,7 +35,12 @@ def source(mm, style='metaclass'):
         if abstract:
             out.append('@abstract')
         if supers:
-            out.append(f"class C{cid}({', '.join(f'C{s}' for s in supers)}):")
+            bases = [f'C{s}' for s in supers]
+            where = getattr(mm, 'mixins', {}).get(cid)
+            if where:
+                out[-1:-1] = [f'class Mix{cid}(object):', f"    def mixed_{cid}(this):", f"        return 'mixed'", '']
+                bases.insert({'before': 0, 'after': len(bases), 'between': min(1, len(bases))}[where], f'Mix{cid}')
+            out.append(f"class C{cid}({', '.join(bases)}):")
         elif style == 'decorator':
             out.append('@EMetaclass')
             out.append(f'class C{cid}(object):')
